@@ -141,6 +141,7 @@ func canonicalForm(f string) [][2]string {
 	blank := 0
 	// expected indentation
 	depth, open := 0, 0
+	pendingBlock, elseIf := false, false
 	for ln, line := range lines {
 		if strings.TrimRight(line, " \t\r") != line {
 			bad = append(bad, [2]string{"trailing-whitespace", fmt.Sprintf("line %d: %q", ln+1, line)})
@@ -159,6 +160,9 @@ func canonicalForm(f string) [][2]string {
 		}
 		toks := lineTokens(line)
 		lineDepth := depth
+		if pendingBlock && elseIf {
+			lineDepth-- // continuation lines of an `else if` header
+		}
 		closers := 0
 		if open == 0 && len(toks) > 0 {
 			switch toks[0] {
@@ -174,6 +178,9 @@ func canonicalForm(f string) [][2]string {
 				}
 			}
 		}
+		if closers > 1 {
+			closers = 1 // `]]`: the line is indented for the innermost literal that it closes first
+		}
 		want := 4 * (lineDepth + open - closers)
 		if open > 0 && closers == 0 {
 			want = 4 * (lineDepth + open)
@@ -185,7 +192,11 @@ func canonicalForm(f string) [][2]string {
 		if open == 0 && len(toks) > 0 {
 			switch toks[0] {
 			case lexer.IF, lexer.WHILE, lexer.FOR, lexer.FUNC, lexer.ON:
-				depth++
+				pendingBlock = true // the block starts after the header, which may span a multi-line literal
+			case lexer.ELSE:
+				if len(toks) > 1 && toks[1] == lexer.IF {
+					pendingBlock, elseIf = true, true
+				}
 			case lexer.END:
 				depth--
 			}
@@ -200,6 +211,12 @@ func canonicalForm(f string) [][2]string {
 		}
 		if open < 0 {
 			open = 0
+		}
+		if pendingBlock && open == 0 {
+			if !elseIf {
+				depth++
+			}
+			pendingBlock, elseIf = false, false
 		}
 	}
 	return bad
